@@ -47,6 +47,7 @@ func runC01(e *Env) {
 	// "through any input path": an exported function or method of the package that takes a text and is not one of the
 	// paths read here hands that text, whole and unchanged, to one of them — or what it accepts is not known
 	ruleLateEntriesDelegate(e, "C01.paths", "date")
+	ruleScanPath(e, "C01.paths")
 	// C01.fmt takes Bprintf as "append the formatted text to buf": that summary is an obligation of its own —
 	// the bytes handed back are the caller's buffer extended, not storage shared with later calls
 	if fs := funcs(e.Fn("C01.buffer", "date", "DefaultFormatter"), e.Fn("C01.buffer", "internal", "Bprintf")); len(fs) == 2 {
